@@ -53,7 +53,7 @@ def run(tier, vd):
     res4 = validate_traces("DhcpTrace", df, parallel=8)
     vd.add_validation(res4)
     r4 = dict(res4)
-    r4["viol"] = [v for v in res4["viol"] if v["rule"] in ("Q2", "PANIC")]
+    r4["viol"] = [v for v in res4["viol"] if v["rule"] in ("Q1", "Q2", "PANIC")]
     report_viols(vd, "C13", r4, {"world": "dhcp", "seed": sd}, lambda v: {"rule": v["rule"], "world": "dhcp", "why": v["p"][-1] if v["p"] else None}, lambda v: "dhcp %s %s" % (v["rule"], v["p"]))
 
     # 5. DNS socket: concurrent queries at different back-off stages, early (probe) polls
